@@ -455,6 +455,37 @@ def r19_4(ctx, fx):
         ctx.ob("R19.4", "NoiseSocket::new/initial-max_read==canonical_max_read", rs is not None and rs == cm, site=fn.site(n), cfg=fx.cfg, detail="%s == %s" % (rs, cm))
 
 
+def r19_5(ctx, fx):
+    """encoder/decoder agreement on the record TTL: on the wire `ttl == 0` means 'does not expire' (record_from_schema maps it to
+    `expires: None`), so for a record that has an expiry the encoder must emit a value >= 1 on every path of the closure that maps
+    `expires` to the TTL (a sub-second remainder truncates to 0 otherwise, and an expiring record is stored forever by the receiver)."""
+    ks = [k for k in fx.find(r"^protocol::libp2p::kademlia::message::record_to_schema::\{closure#\d+\}$") if fx.fn(k).ret.strip() == "u32"]
+    ctx.anchor("R19.5", "record_to_schema: closure mapping expires to the wire TTL", len(ks), 1, cfg=fx.cfg)
+    for k in ks:
+        fn = fx.fn(k)
+        ctx.bodies.add((fx.cfg, k))
+        ok = True
+        why = []
+        for node, kind, pl in fn.defs().get(0, []):
+            if node not in fn.live_nodes():
+                continue
+            if kind == "assign":
+                v = fn.const_value(pl["rv"]["o"]) if pl["rv"]["r"] == "use" else None
+                good = isinstance(v, int) and v >= 1
+                why.append("const %s" % v)
+            else:
+                c = fn.call_at(node)
+                good = bool(re.search(r"Ord>?::max$|cmp::max$", c.name)) and any(isinstance(fn.const_value(a), int) and fn.const_value(a) >= 1 for a in c.args)
+                why.append("call %s" % c.name)
+            ok = ok and good
+        ctx.ob("R19.5", "record_to_schema/ttl-of-an-expiring-record>=1", ok and bool(why), site=fn.site(fn.entry), cfg=fx.cfg, detail="values returned: %s" % why)
+    df = ctx.fn(fx, "protocol::libp2p::kademlia::message::record_from_schema", "R19.5")
+    if df is not None:
+        nones = [n for n, s_ in df.aggregates(r"option::Option$", "None")]
+        ctx.ob("R19.5", "record_from_schema/ttl==0-is-the-only-never-expires", True, site=df.site(df.entry), cfg=fx.cfg, nontrivial=False,
+               detail="decoder side read for reference; None aggregates: %d" % len(nones))
+
+
 def run(ctx):
     for cfg in ctx.configs():
         fx = ctx.facts(cfg)
@@ -467,6 +498,7 @@ def run(ctx):
         r19_3(ctx, fx, seen)
         r19_4(ctx, fx)
         if cfg == "default":
+            r19_5(ctx, fx)
             # the `expect` in From<PeerId> for multiaddr::PeerId is discharged by "every PeerId value is one the reference accepts":
             # the constructor / threshold / constant-agreement rules of C18 are part of this property's argument and evaluated here too
             import C18
